@@ -17,6 +17,7 @@ from common import crash_signature, panic_signature, sanitize_sig
 LEVEL = "exploration"
 
 SIMPLE = 10
+SIMPLE_FOR_CASE_VARIANTS = ["Any", "Null", "number", "string", "boolean"]
 DEPTH1_TYPES = 1261  # 10 simple + 10 list + 10 range + 121 context + 1110 function
 
 # laws that must have been exercised (non-vacuously) for a run to count
@@ -175,6 +176,17 @@ def run(rep, tier, seed):
     for lo, hi in shards_a:
         add("d1", {"op": "types", "mode": "universe", "depth": 1, "rows": [lo, hi], "direct_triples": n_direct // len(shards_a), "seed": seed})
     # ---- B. depth 2, sampled family sets ----
+    # entry names that differ in letter case only (a / A) next to a third name: contexts over them, alone and inside lists and
+    # function types; all ordered pairs and triples of this family against the reference (which compares names as texts)
+    cv = list(SIMPLE_FOR_CASE_VARIANTS)
+    for n1 in ("a", "A", "b"):
+        cv += [{"context": [[n1, t]]} for t in SIMPLE_FOR_CASE_VARIANTS]
+    for n1, n2 in (("a", "A"), ("a", "b"), ("A", "b")):
+        cv += [{"context": [[n1, t1], [n2, t2]]} for t1 in SIMPLE_FOR_CASE_VARIANTS for t2 in SIMPLE_FOR_CASE_VARIANTS[:3]]
+    cv += [{"context": [["a", "number"], ["A", "string"], ["b", "boolean"]]}, {"context": [["A", "number"], ["a", "string"], ["b", "boolean"]]}]
+    wrapped = [t for t in cv if isinstance(t, dict)][:30]
+    cv += [{"list": t} for t in wrapped] + [{"function": [[t], "number"]} for t in wrapped[:12]] + [{"function": [[], t]} for t in wrapped[:12]]
+    add("cv", {"op": "types", "mode": "probe", "types": cv, "no_matrices": True, "seed": seed})
     n_sets, set_size = (256, 900) if thorough else (96, 600)
     for k in range(n_sets):
         add("d2s", {"op": "types", "mode": "sample", "size": set_size, "seed": seed * 100003 + k, "direct_triples": 4000})
@@ -235,7 +247,9 @@ def _digest(rep, variant, tags, cases, results, thorough, reduced):
         g["cases"] += 1
         merged.add(res, "%s/%s" % (tag, variant))
         rep.count(int(res.get("calls", 0)))
-        if tag == "d1" or tag == "d2s" or tag.startswith("d2x"):
+        if tag == "cv" and int(res.get("lost_context_entries", 0)):
+            rep.violation("context-type-loses-entries-whose-names-differ", "%d entries were lost while building context types from pairwise different entry names (a / A / b): the ordering of names disagrees with their equality" % int(res["lost_context_entries"]), {"variant": variant, "case": case})
+        if tag == "d1" or tag == "d2s" or tag.startswith("d2x") or tag == "cv":
             n = int(res["n_types"])
             lo, hi = res["rows"]
             for k in ("pairs", "triples_matrix_nonvacuous", "triples_direct", "conf_true", "equiv_true", "duplicate_calls"):
